@@ -653,6 +653,7 @@ func c20throttleGraph(c *c20ctx, trailing bool) {
 	type monitor struct {
 		lastPerm   int64 // time of the last permission (-1000: none)
 		obligation bool  // a trigger has been sent and no permission was handed out since
+		inCall     bool  // the driver is inside Call
 		inNext     bool  // the consumer is inside Next (time passes only while it is parked there, or outside)
 		cancelled  bool
 		viol, det  string
@@ -720,7 +721,14 @@ func c20throttleGraph(c *c20ctx, trailing bool) {
 				case t-mm.lastPerm < 5:
 					mm.viol, mm.det = "Throttle/graph/two-permissions-within-one-period", fmt.Sprintf("permissions at %d and %d with a period of 5", mm.lastPerm, t)
 				}
-				mm.lastPerm, mm.obligation = t, false
+				if !mm.obligation && mm.viol == "" {
+					// every permission answers a trigger: with the trailing edge any Call since the last
+					// permission, without it a Call that came more than a period after the last permission
+					mm.viol, mm.det = "Throttle/graph/permission-without-a-trigger", fmt.Sprintf("Next returned true at time %d although no trigger that is owed a permission has arrived since the last one at %d (trailing=%t)", t, mm.lastPerm, trailing)
+				}
+				// a Call that is under way right now was invoked before this permission but takes effect after
+				// it: with the trailing edge it is a trigger of the new period
+				mm.lastPerm, mm.obligation = t, mm.inCall && trailing
 				mm.trace = append(mm.trace, fmt.Sprintf("Next=true@%d", t))
 			}
 		})
@@ -750,7 +758,9 @@ func c20throttleGraph(c *c20ctx, trailing bool) {
 					// trigger that arrives more than a period after the last permission is owed one.
 					mm.obligation = true
 				}
+				mm.inCall = true
 				th.Call()
+				mm.inCall = false
 			case 1:
 				// (the condition is evaluated in the same step as the clock movement, after the scheduling point)
 				vrt.AdvanceIf(2*unit, func() bool { return !mm.inNext || vrt.ThreadParked(consumer) })
